@@ -20,6 +20,10 @@ pub struct Step {
     pub delay_ms: u64,
     /// None = get_time; Some((offset from the wall clock in ms, counter, node)) = register_ts
     pub reg: Option<(i64, u16, u8)>,
+    /// > 0: a flood - this many register_ts calls back to back (offsets rising by 1 ms each from
+    /// `reg`'s offset), more than the clock's inbox holds
+    #[serde(default)]
+    pub flood: u32,
 }
 
 #[derive(Serialize, Deserialize, Clone, Debug)]
@@ -57,7 +61,7 @@ impl Check for C11 {
         "E1 single-node engine: the real Clock actor with 2-8 concurrent caller tasks (get_time / register_ts) under seeded virtual delays, wall clock advancing, stalled or jumping"
     }
     fn rule(&self) -> &'static str {
-        "Cases: 2-8 caller tasks, each 1-25 steps of get_time or register_ts(remote) separated by seeded virtual delays 0-6 ms (zero delays make callers contend for the actor's channel in seeded orders); remote stamps behind / at / ahead of the wall clock within and beyond the drift limit, from other nodes or the clock's own id, counters 0..65535; 0-3 wall-clock jumps of up to 10 minutes either way (so that, together with accepted remote leads of up to 33 minutes, the clock never has to refuse for drift - that refusal is C09's subject). Invocations and returns are stamped with a global event sequence number. Oracle over the history: returned stamps pairwise distinct; per task strictly increasing; a get_time invoked after register_ts(r) returned yields > r unless r was beyond the drift limit (or carried the clock's own node id). Non-trivial = >= 2 tasks overlap and >= 1 register_ts. Distinct = hash of the returned-stamp order."
+        "Cases: 2-8 caller tasks, each 1-25 steps of get_time or register_ts(remote) separated by seeded virtual delays 0-6 ms (zero delays make callers contend for the actor's channel in seeded orders); one case in twelve adds a flood of 1100-2500 back-to-back register_ts calls (more than the clock's 1000-slot inbox) followed by a get_time; remote stamps behind / at / ahead of the wall clock within and beyond the drift limit, from other nodes or the clock's own id, counters 0..65535; 0-3 wall-clock jumps of up to 10 minutes either way (so that, together with accepted remote leads of up to 33 minutes, the clock never has to refuse for drift - that refusal is C09's subject). Invocations and returns are stamped with a global event sequence number. Oracle over the history: returned stamps pairwise distinct; per task strictly increasing; a get_time invoked after register_ts(r) returned yields > r unless r was beyond the drift limit (or carried the clock's own node id). Non-trivial = >= 2 tasks overlap and >= 1 register_ts. Distinct = hash of the returned-stamp order."
     }
     fn assumptions(&self) -> Vec<String> {
         vec![
@@ -108,9 +112,16 @@ impl Check for C11 {
                 } else {
                     None
                 };
-                steps.push(Step { delay_ms, reg });
+                steps.push(Step { delay_ms, reg, flood: 0 });
             }
             events.push(steps);
+        }
+        if rng.gen_bool(0.08) {
+            // one task floods the clock with more registrations than its inbox (1000) holds
+            let n = rng.gen_range(1_100..2_500);
+            let other = if node == 7 { 8 } else { 7 };
+            events[0].push(Step { delay_ms: rng.gen_range(0..5), reg: Some((rng.gen_range(0..60_000), 0, other)), flood: n });
+            events[0].push(Step { delay_ms: 0, reg: None, flood: 0 });
         }
         let mut wall = Vec::new();
         for _ in 0..rng.gen_range(0..=3) {
@@ -173,6 +184,18 @@ impl Check for C11 {
                                 let ret = next(&seq);
                                 let vt_ret = tokio::time::Instant::now().saturating_duration_since(start).as_millis() as u64;
                                 recs.borrow_mut().push(Rec::Got { task: ti, inv, ret, ts, vt_ret });
+                            },
+                            Some((off, c, n)) if st.flood > 0 => {
+                                let w0 = wall.now_ms() as i64;
+                                for j in 0..st.flood as i64 {
+                                    let vt_inv = tokio::time::Instant::now().saturating_duration_since(start).as_millis() as u64;
+                                    let t = ((w0 + off + j * 4).max(0) as u64) / 4 * 4;
+                                    let r = HLCTimestamp::new(Duration::from_millis(t), c, n);
+                                    let inv = next(&seq);
+                                    clock.register_ts(r).await;
+                                    let ret = next(&seq);
+                                    recs.borrow_mut().push(Rec::Reg { inv, ret, ts: r, vt_inv });
+                                }
                             },
                             Some((off, c, n)) => {
                                 let w_inv = wall.now_ms() as i64;
